@@ -12,8 +12,12 @@ in the order the real engine ran them (GUIDE rule 8):
 * `res i id t` — the request's generator resumes at `t`: the read returns (global rejection, or write
   issued with the value just read + 1), or the write completes (counter stored, request forwarded at `t`).
 
-Window ids are `t / W` in integer nanoseconds (the code floor-divides float seconds; the harness keeps
-DistributedRateLimiter cases on the grid where the two agree).
+The window id of an arrival is `wid t` for a function `wid` that is a parameter of the model.  As
+repaired by `fixes/C10-drl-window-float-floor.diff` it is `t / W` in integer nanoseconds
+(`aligned W`); the unrepaired code floor-divides *float* seconds (`int(now.to_seconds() //
+window_size)`, e.g. `0.3 // 0.1 = 2.0`), which the harness evaluates in Python and passes as a table
+(variant `current`).  Exactly-once holds for every `wid`; the per-aligned-window limit needs
+`wid = aligned W` and is false for the float table (`drl_aligned_window_current_false`).
 -/
 namespace HappyModel.C10
 
@@ -47,6 +51,7 @@ structure DRL where
   fwd : List (Nat × Nat × Nat) := []      -- (instance, id, time), newest first
   dropped : List Nat := []                -- newest first
   fwdWin : List Nat := []                 -- ghost: the window each forwarded request was counted in
+  fwdArr : List Nat := []                 -- ghost: the arrival time of each forwarded request
 deriving Repr
 
 inductive DAct where
@@ -69,15 +74,18 @@ def DRL.setInst (s : DRL) (i : Nat) (d : DInst) : DRL := { s with insts := s.ins
 def DInst.roll (d : DInst) (w : Nat) : DInst :=
   if d.win = some w then d else { d with win := some w, lcnt := 0, known := 0 }
 
-def DRL.step (W N : Nat) (s : DRL) : DAct → DRL × DOut
+/-- the repaired window id: integer nanoseconds -/
+def aligned (W : Nat) (t : Nat) : Nat := t / W
+
+def DRL.step (wid : Nat → Nat) (N : Nat) (s : DRL) : DAct → DRL × DOut
   | .arr i id t =>
-    let d := ((s.inst i).roll (t / W))
+    let d := ((s.inst i).roll (wid t))
     if N ≤ d.known then
       ({ (s.setInst i { d with recv := d.recv + 1, lrej := d.lrej + 1, drop := d.drop + 1 }) with
           recv := id :: s.recv, dropped := id :: s.dropped }, .localReject)
     else
       ({ (s.setInst i { d with recv := d.recv + 1, reads := d.reads + 1 }) with
-          recv := id :: s.recv, flights := ⟨i, id, t, t / W, none⟩ :: s.flights }, .readIssued)
+          recv := id :: s.recv, flights := ⟨i, id, t, wid t, none⟩ :: s.flights }, .readIssued)
   | .res i id t =>
     match s.flights.find? (fun f => f.inst == i && f.id == id) with
     | none => (s, .nothing)
@@ -95,22 +103,27 @@ def DRL.step (W N : Nat) (s : DRL) : DAct → DRL × DOut
       | some c =>
         ({ (s.setInst i { d with lcnt := d.lcnt + 1, known := c, fwd := d.fwd + 1 }) with
             store := (f.win, c) :: s.store, flights := s.flights.erase f, fwd := (i, id, t) :: s.fwd,
-            fwdWin := f.win :: s.fwdWin },
+            fwdWin := f.win :: s.fwdWin, fwdArr := f.arr :: s.fwdArr },
           .forwarded)
 
-def DRL.run (W N : Nat) : DRL → List DAct → DRL
+def DRL.run (wid : Nat → Nat) (N : Nat) : DRL → List DAct → DRL
   | s, [] => s
-  | s, a :: as => DRL.run W N (s.step W N a).1 as
+  | s, a :: as => DRL.run wid N (s.step wid N a).1 as
 
 /-- one request served without overlap: it arrives at `t`, its read returns at `t1`, its write at `t2`,
     and no other segment runs in between (a locally or globally rejected request ignores the rest) -/
-def DRL.serve (W N : Nat) (s : DRL) (r : Nat × Nat × Nat × Nat × Nat) : DRL :=
-  (((s.step W N (.arr r.1 r.2.1 r.2.2.1)).1.step W N (.res r.1 r.2.1 r.2.2.2.1)).1.step W N
+def DRL.serve (wid : Nat → Nat) (N : Nat) (s : DRL) (r : Nat × Nat × Nat × Nat × Nat) : DRL :=
+  (((s.step wid N (.arr r.1 r.2.1 r.2.2.1)).1.step wid N (.res r.1 r.2.1 r.2.2.2.1)).1.step wid N
     (.res r.1 r.2.1 r.2.2.2.2)).1
 
-def DRL.serveAll (W N : Nat) : DRL → List (Nat × Nat × Nat × Nat × Nat) → DRL
+def DRL.serveAll (wid : Nat → Nat) (N : Nat) : DRL → List (Nat × Nat × Nat × Nat × Nat) → DRL
   | s, [] => s
-  | s, r :: rs => DRL.serveAll W N (s.serve W N r) rs
+  | s, r :: rs => DRL.serveAll wid N (s.serve wid N r) rs
+
+/-- a window-id function given as a table (what the float floor division answered for the arrival times
+    of one run), integer division elsewhere -/
+def widTable (W : Nat) (tbl : List (Nat × Nat)) (t : Nat) : Nat :=
+  ((tbl.find? (·.1 == t)).map (·.2)).getD (t / W)
 
 def DRL.init (n : Nat) : DRL := { insts := List.replicate n {} }
 
